@@ -32,8 +32,9 @@ func globalIdent(old ast.GlobalIdent) ir.GlobalIdent {
 	ident = ident[len(prefix):]
 	// positive integer -> ID
 	// everything else (including negative integer) -> Name
-	if id, err := strconv.ParseInt(ident, 10, 64); err == nil && id >= 0 {
-		return ir.GlobalIdent{GlobalID: id}
+	if id, err := strconv.ParseUint(ident, 10, 63); err == nil {
+		// Note, a sign is not part of an ID; @-0 is a global name.
+		return ir.GlobalIdent{GlobalID: int64(id)}
 	}
 	// Unquote after trying to parse as ID, since @"42" is recognized as named
 	// and not unnamed.
@@ -54,8 +55,9 @@ func localIdent(old ast.LocalIdent) ir.LocalIdent {
 	ident = ident[len(prefix):]
 	// positive integer -> ID
 	// everything else (including negative integer) -> Name
-	if id, err := strconv.ParseInt(ident, 10, 64); err == nil && id >= 0 {
-		return ir.LocalIdent{LocalID: id}
+	if id, err := strconv.ParseUint(ident, 10, 63); err == nil {
+		// Note, a sign is not part of an ID; %-0 is a local name.
+		return ir.LocalIdent{LocalID: int64(id)}
 	}
 	// Unquote after trying to parse as ID, since %"42" is recognized as named
 	// and not unnamed.
@@ -76,8 +78,9 @@ func labelIdent(old ast.LabelIdent) ir.LocalIdent {
 	ident = ident[:len(ident)-len(suffix)]
 	// positive integer -> ID
 	// everything else (including negative integer) -> Name
-	if id, err := strconv.ParseInt(ident, 10, 64); err == nil && id >= 0 {
-		return ir.LocalIdent{LocalID: id}
+	if id, err := strconv.ParseUint(ident, 10, 63); err == nil {
+		// Note, a sign is not part of an ID; %-0 is a local name.
+		return ir.LocalIdent{LocalID: int64(id)}
 	}
 	// Unquote after trying to parse as ID, since %"42" is recognized as named
 	// and not unnamed.
